@@ -542,10 +542,6 @@ func c18FileRead(bs uint32, buflen int) {
 	if bs == 0 {
 		// KF-C18-19: block size 0 (s_log_block_size = 22 makes 2^32 wrap to 0)
 		vp.KnownPanic("KF-C18-19", "ext4.File).Read)")
-	} else {
-		// KF-C18-20: an extent that ends before the block holding the offset is only skipped when it ends
-		// more than one block before it: negative length for make()
-		vp.KnownPanic("KF-C18-20", "ext4.File).Read)")
 	}
 	vp.NoPanic()
 	n, err := fl.Read(b)
